@@ -101,3 +101,29 @@ def file_name_with_backslash():
         return s.kinds()
     finally:
         s.destroy()
+
+
+def agent_creates_more_than_1000_files_in_a_new_directory():
+    """D73 (fixed): one agent report names 1001 new files under a directory that does not exist in HEAD; commit => the note listed no
+    file at all and every line was blamed on a person (above 1000 paths `git status` runs without pathspecs and collapses the wholly
+    untracked directory into one `? gen/` record that no reported path matched; with 1000 files every file was recorded)."""
+    s = Script("d73")
+    try:
+        s.human_write("f.txt", [s.line("human") for _ in range(3)])
+        s.commit_all("init")
+        names = ["gen/f%04d.txt" % i for i in range(1001)]
+        s.w.human_ckpt(names)
+        for f in names:
+            s.write(f, [s.line("S1"), s.line("S1")])
+        s.w.ai_ckpt("S1", names)
+        s.commit_all("agent scaffolds 1001 files")
+        c = s.head()
+        s.check_notes("w")
+        note = s.nr.note_for(c)
+        listed = len(note.files) if note else 0
+        if listed != 1001:
+            s.violation("C01/missing-from-note", file="gen/*", line=0, listed_files=listed, expected_files=1001)
+        s.check_blame_tip("w", rule="C01", files=["gen/f0000.txt", "gen/f0500.txt", "gen/f1000.txt"])
+        return s.kinds()
+    finally:
+        s.destroy()
